@@ -4,6 +4,9 @@ import (
 	"bytes"
 	"fmt"
 	"io"
+	"os"
+	"os/exec"
+	"path/filepath"
 	"strings"
 	"time"
 
@@ -33,6 +36,7 @@ func init() {
 		},
 		Run:         runC16,
 		CaseTimeout: 60 * time.Second,
+		Finalize:    c16NativeFuzz,
 	})
 }
 
@@ -432,3 +436,78 @@ func c16Agreement(res *fw.Result, outs []c16Out, readers []string, files map[str
 }
 
 var _ = io.EOF
+
+// c16NativeFuzz runs Go's coverage-guided fuzzer on the reader target with a
+// fixed execution budget (no wall-clock budget) and turns a crasher into a
+// violation with the input as witness.
+func c16NativeFuzz(a *fw.Agg) {
+	execs := "30000x"
+	if a.Tier == "thorough" {
+		execs = "600000x"
+	}
+	hdir := filepath.Join(fw.VerifDir(), "harness")
+	pkgDir := filepath.Join(hdir, "internal", "props")
+	crashDir := filepath.Join(pkgDir, "testdata", "fuzz", "FuzzFastaReaders")
+	os.RemoveAll(filepath.Join(pkgDir, "testdata"))
+	modfile := filepath.Join(fw.BuildDir(), "harness.mod")
+	args := []string{"test", "-modfile=" + modfile, "-tags", "verif", "-vet=off", "-run", "^$", "-fuzz", "^FuzzFastaReaders$", "-fuzztime", execs, "-parallel", "12", "./internal/props/"}
+	cmd := exec.Command("go", args...)
+	cmd.Dir = hdir
+	var out bytes.Buffer
+	cmd.Stdout = &out
+	cmd.Stderr = &out
+	done := make(chan error, 1)
+	if err := cmd.Start(); err != nil {
+		a.Inconclusive = append(a.Inconclusive, "native fuzzing could not be started: "+err.Error())
+		return
+	}
+	go func() { done <- cmd.Wait() }()
+	var err error
+	select {
+	case err = <-done:
+	case <-time.After(40 * time.Minute):
+		cmd.Process.Kill()
+		<-done
+		a.Inconclusive = append(a.Inconclusive, "native fuzzing watchdog fired (inconclusive, not a verdict)")
+		os.RemoveAll(filepath.Join(pkgDir, "testdata"))
+		return
+	}
+	text := out.String()
+	// last progress line: "fuzz: elapsed: 3s, execs: 30000 (9876/sec), new interesting: 12 (total: 40)"
+	var nexec, interesting int
+	for _, l := range strings.Split(text, "\n") {
+		if i := strings.Index(l, "execs: "); i >= 0 {
+			fmt.Sscanf(l[i:], "execs: %d", &nexec)
+			if j := strings.Index(l, "(total: "); j >= 0 {
+				fmt.Sscanf(l[j:], "(total: %d", &interesting)
+			}
+		}
+	}
+	a.Counters["native_fuzz_executions"] += nexec
+	a.Counters["native_fuzz_interesting_inputs"] += interesting
+	a.Evals += nexec
+	if err != nil {
+		files := map[string]string{"go_test_fuzz_output.txt": clipStr(text, 30000)}
+		ents, _ := os.ReadDir(crashDir)
+		for _, e := range ents {
+			b, _ := os.ReadFile(filepath.Join(crashDir, e.Name()))
+			files["crasher_"+e.Name()] = string(b)
+		}
+		if len(ents) > 0 || strings.Contains(text, "--- FAIL") || strings.Contains(text, "panic:") {
+			a.AddViolation(-1, fw.Violation{Class: "native-fuzz-crasher", Msg: "Go native fuzzing found an input on which a FASTA reader panics, hangs or the readers disagree: " + firstFuzzFailure(text), Files: files})
+		} else {
+			a.Inconclusive = append(a.Inconclusive, "native fuzzing failed to run: "+clipStr(text, 300))
+		}
+	}
+	os.RemoveAll(filepath.Join(pkgDir, "testdata"))
+}
+
+func firstFuzzFailure(text string) string {
+	for _, l := range strings.Split(text, "\n") {
+		t := strings.TrimSpace(l)
+		if strings.HasPrefix(t, "panic:") || strings.Contains(t, "readers disagree") || strings.Contains(t, "fuzzing process hung") {
+			return t
+		}
+	}
+	return "see go_test_fuzz_output.txt"
+}
